@@ -81,11 +81,28 @@ def run(ctx):
             if not pr.get("de") or "ok" not in r.get("name", {}):
                 continue
             text = closure_text(prog, pr["ty"])
+            import re
+            buffered = re.search(r'"(tag|content)": "', text) or '"untagged": true' in text or '"flatten": true' in text
+            int_keys = re.search(r'"k": "map", "a": \{"k": "prim", "r": "[iu]', text)
+            if buffered and int_keys:
+                # serde buffers internally tagged / untagged / flattened data as `Content`, where map keys stay strings:
+                # it cannot deserialize its own integer-keyed maps there (outside the fragment the property quantifies over)
+                skipped += 1
+                continue
             if any(x in text for x in CONSTRAINED) or '"type": "' in text:
                 skipped += 1
                 continue
             wq.append({"op": "witnesses", "decls": decls, "ty": r["name"]["ok"]})
             wmeta.append((pi, qi, decls, r))
+    # the property is about the fragment on which serde round-trips its OWN output: probes whose real samples
+    # do not deserialize (e.g. integer map keys or 128-bit numbers below `flatten` / an internal tag) are outside it
+    rt_q = [[pi, qi, s] for (pi, qi, _, r) in wmeta for s in r.get("values", []) if s]
+    rt = e2e.run_de(ctx, "main", rt_q) if rt_q else []
+    bad_probe = {(q[0], q[1]) for q, d in zip(rt_q, rt) if not ("ok" in d and d["ok"] is not None)}
+    keepi = [i for i, m in enumerate(wmeta) if (m[0], m[1]) not in bad_probe]
+    not_roundtrip = len(wmeta) - len(keepi)
+    wq = [wq[i] for i in keepi]
+    wmeta = [wmeta[i] for i in keepi]
     wres = vlib.run_model(wq) if wq else []
     cand = []      # (pi, qi, json text, origin)
     for (pi, qi, decls, r), w in zip(wmeta, wres or []):
@@ -130,11 +147,15 @@ def run(ctx):
                "leaves, popped/duplicated elements) of real serialized samples that still satisfy memberb; fed to the real serde_json::from_str::<T>; re-serialization judged again",
                [{"type": wit[0][5], "witness": wit[0][2]}] if wit else [],
                {"candidates": len(cand), "witnesses": len(wit), "enumerated": sum(1 for w in wit if w[3] == "enumerated"),
-                "mutants": sum(1 for w in wit if w[3] == "mutant"), "rejected_by_serde": fails, "probes_skipped_constrained_leaves": skipped})
+                "mutants": sum(1 for w in wit if w[3] == "mutant"), "rejected_by_serde": fails, "probes_skipped_constrained_leaves": skipped,
+                "probes_outside_fragment_serde_does_not_roundtrip_its_own_output": not_roundtrip})
     ctx.assumptions += ["leaves restricted as the property says: numbers 1 (representable in every numeric leaf type), one-character strings; programs with IP/socket-address or NonZero leaves are skipped",
                         "TypeScript meaning as in C01"]
     vlib.settle(ctx)
-    return ctx.finish(proof=proof)
+    proof = dict(proof or {})
+    proof["explanation"] = ("C02 is decided on the implementation: witnesses of the real declared types (enumerated + mutants), filtered by the Lean-proven sound "
+                            "membership test (C02_kept_candidates_are_members), are fed to the real Deserialize; no Lean model of Deserialize exists, so this is not a proof of C02")
+    return ctx.finish(level="other", proof=proof)
 
 
 def replay(ctx, obj):
